@@ -496,6 +496,13 @@ func (c *Class) Ops(rng *rand.Rand, cfg string, nargs int) []string {
 				add(args, "(ok 1)", wireInts("err", []int{i}))
 				add(args, "(ok 0)", wireInts("err", []int{i}))
 			}
+			if c.ErrTy != "errv" {
+				// the zero value of the supplied type: a typed nil (nil slice / nil pointer of a custom error
+				// type) must come back exactly as it is; the nil interface as nil
+				args := wireInts("args", payloads(rng, ptys(c.Ps)))
+				add(args, "(ok 1)", "(err)")
+				add(args, "(ok 0)", "(err)")
+			}
 		}
 		return out
 	}
